@@ -165,6 +165,8 @@ SUMMARY = {
     "C20-G": ("WriteFlowControl.drain() re-checks connection_lost after the wake-up", "sender suspended, another task closes gracefully, the peer reads again: the send fails although every byte was handed over"),
     "C20-H": ("drain(): lost-connection check nested under 'not paused'; connection_lost() no longer resets the paused flag", "connection lost while writing is paused, then any later send"),
     # round 6 (ids I)
+    "C03-I": ("blocking endpoint receivers' clear() also resets _eof_reached → the sticky end-of-stream marker is forgotten by StreamEndpoint.close()", "blocking low-level StreamEndpoint: end-of-stream reported, then endpoint.close(), then recv_packet() → OSError(EBADF)"),
+    "C13-I": ("CancelScope.__uncancel_task: 'carries our cancellation id → ours', the count of pending foreign requests is no longer consulted", "an external task.cancel() issued while the scope's own cancellation is in flight (asyncio delivers one exception for both)"),
     "C07-I": ("_buffered_readuntil: 'fast path' that only re-enters the search + limit check when the new bytes contain the separator's last byte", "buffered path; an unterminated frame arriving in ≥ 2 reads, the first still under the limit, the later ones without the separator's last byte"),
     "C10-I": ("endpoint _DataReceiverImpl/_BufferedReceiverImpl.receive(): plain coro_yield() after a packet was popped from the consumer", "≥ 2 packets in one chunk, then a recv_packet() served from the buffer and cancelled at its first suspension (expired scope, early task.cancel())"),
     "C15-I": ("StreamReaderBufferedProtocol._wait_for_data(): rescue keyed on `__external_buffer_view is not None`, which buffer_updated() has already reset", "BufferedStreamProtocol server, handler yielding a timeout, request bytes read in the same loop iteration as the expiry, handler carries on"),
@@ -179,6 +181,7 @@ SUMMARY = {
 
 
 EXPECTED_SURVIVE = {
+    "C03-I": "only visible after the LOCAL endpoint.close(): the statement quantifies over sequences of recv_packet / iter_received_packets calls on a connection the peer closed; what a receive on a locally closed endpoint raises (sticky ConnectionAbortedError, EBADF, or ClientClosedError as TCPNetworkClient does) is not stated. A check that demanded the sticky error there would go beyond the statement.",
     "C12-C": "needs SSLObject.write() to raise SSLWantRead/WantWrite in the middle of a packet; real OpenSSL over a MemoryBIO never does that after the handshake (probed by two harness authors; the stdlib offers no renegotiation/KeyUpdate trigger). The author's demo uses a fake TLS engine. Recorded as unreachable for a simulation that runs the real ssl module.",
     "C04-C": "same edit as C12-C: unreachable with the real ssl module (needs SSLObject.write() to raise WantRead/WantWrite mid-packet).",
     "C04-D": "needs a would-block condition that is resolved without the descriptor ever becoming ready (a TLS client shared by two threads where the receiver consumes the record the sender waits for, or data buffered inside OpenSSL). The simulated selector reports readiness truthfully and the blocking TLS harnesses are single-threaded, so an un-timed select() still returns. Not modelled; stated limitation.",
